@@ -79,6 +79,18 @@ func c11ImportEdges(w *World, r *Report) {
 								nImp++
 							}
 						}
+					} else if kinds, ok := tableKindsHanded(w, root, f, src.Call.Args[0]); ok {
+						// the kinds come from a read-only table the root hands down: one merge per entry
+						for i, v := range kinds {
+							kind = fmt.Sprintf("kind %d", v)
+							if v == impK {
+								kind = "NodeImport"
+								nImp++
+							}
+							if i < len(kinds)-1 {
+								r.OK("R11.7", fmt.Sprintf("%s: AddChildren #%d (in %s, table entry %d)", name, nAdd, f.Name(), i), in.Pos(), "passes ChildrenByType("+kind+") unfiltered")
+							}
+						}
 					}
 					r.OK("R11.7", what, in.Pos(), "passes ChildrenByType("+kind+") unfiltered")
 				}
@@ -88,4 +100,131 @@ func c11ImportEdges(w *World, r *Report) {
 	}
 	_ = types.Typ
 	_ = token.NoPos
+}
+
+// tableKindsHanded: v, in f, is an element of a slice parameter of f (read in
+// a loop over it), and root — which reaches f by one static call — hands a
+// package-level slice literal of constants that the module only reads for that
+// parameter: the constants.
+func tableKindsHanded(w *World, root, f *ssa.Function, v ssa.Value) ([]int64, bool) {
+	ld, ok := v.(*ssa.UnOp)
+	if !ok || ld.Op != token.MUL {
+		return nil, false
+	}
+	ia, ok := ld.X.(*ssa.IndexAddr)
+	if !ok {
+		return nil, false
+	}
+	prm, ok := ia.X.(*ssa.Parameter)
+	if !ok || prm.Parent() != f {
+		return nil, false
+	}
+	idx := -1
+	for i, q := range f.Params {
+		if q == prm {
+			idx = i
+		}
+	}
+	var out []int64
+	found := false
+	for _, b := range root.Blocks {
+		for _, in := range b.Instrs {
+			c, isC := in.(*ssa.Call)
+			if !isC || c.Call.StaticCallee() != f || idx < 0 || idx >= len(c.Call.Args) {
+				continue
+			}
+			gl, isLd := c.Call.Args[idx].(*ssa.UnOp)
+			if !isLd || gl.Op != token.MUL {
+				return nil, false
+			}
+			g, isG := gl.X.(*ssa.Global)
+			if !isG || found {
+				return nil, false
+			}
+			gv, _ := g.Object().(*types.Var)
+			if gv == nil || !globalOnlyHandedTo(g, f, idx) {
+				return nil, false
+			}
+			init, ip := w.VarInit(gv)
+			if init == nil {
+				return nil, false
+			}
+			lv := evalLit(ip, init)
+			if len(lv.Elems) == 0 {
+				return nil, false
+			}
+			for _, e := range lv.Elems {
+				if e.Const == nil {
+					return nil, false
+				}
+				iv, exact := constant.Int64Val(constant.ToInt(e.Const))
+				if !exact {
+					return nil, false
+				}
+				out = append(out, iv)
+			}
+			found = true
+		}
+	}
+	return out, found
+}
+
+// globalOnlyHandedTo: outside the package initialiser, the package-level
+// variable g is only ever loaded to be passed as the idx-th argument of f, and
+// f only reads through that parameter (indexing, len, range).
+func globalOnlyHandedTo(g *ssa.Global, f *ssa.Function, idx int) bool {
+	for _, fn := range allFuncs(g.Pkg) {
+		for _, b := range fn.Blocks {
+			for _, in := range b.Instrs {
+				uses := false
+				for _, op := range in.Operands(nil) {
+					if *op == ssa.Value(g) {
+						uses = true
+					}
+				}
+				if !uses {
+					continue
+				}
+				if fn.Name() == "init" && fn.Synthetic != "" {
+					continue
+				}
+				ld, ok := in.(*ssa.UnOp)
+				if !ok || ld.Op != token.MUL {
+					return false
+				}
+				for _, ref := range *ld.Referrers() {
+					c, isC := ref.(*ssa.Call)
+					if !isC || c.Call.StaticCallee() != f || idx >= len(c.Call.Args) || c.Call.Args[idx] != ssa.Value(ld) {
+						return false
+					}
+					for i, a := range c.Call.Args {
+						if i != idx && a == ssa.Value(ld) {
+							return false
+						}
+					}
+				}
+			}
+		}
+	}
+	if idx >= len(f.Params) {
+		return false
+	}
+	for _, ref := range *f.Params[idx].Referrers() {
+		switch x := ref.(type) {
+		case *ssa.IndexAddr:
+			for _, r2 := range *x.Referrers() {
+				if ld, ok := r2.(*ssa.UnOp); !ok || ld.Op != token.MUL {
+					return false
+				}
+			}
+		case *ssa.Call:
+			if bi, ok := x.Call.Value.(*ssa.Builtin); !ok || bi.Name() != "len" {
+				return false
+			}
+		case *ssa.DebugRef:
+		default:
+			return false
+		}
+	}
+	return true
 }
